@@ -94,7 +94,8 @@ func init() {
 	})
 	reg(vrt+"Quiesce", func(fr *frame, a []value) value { fr.w.quiesce(); return nil })
 	reg(vrt+"Yield", func(fr *frame, a []value) value { fr.w.yield(); return nil })
-	reg(vrt+"Tick", func(fr *frame, a []value) value { return fr.w.fireNextTimer() })
+	reg(vrt+"Tick", func(fr *frame, a []value) value { return fr.w.fireTimer(true) })
+	reg(vrt+"TickPeriodic", func(fr *frame, a []value) value { return fr.w.firePeriodic() })
 	reg(vrt+"Param", func(fr *frame, a []value) value {
 		if v, ok := fr.w.cfg.Params[a[0].(string)]; ok {
 			return int(v)
